@@ -64,6 +64,69 @@ check("C05",
       "Bound: shapes <=2 internal nodes; quick runs 5 covering optimisation subsets, thorough all 16; sub-expressions assumed not to fail (quantifier). " + TRUST,
       "SSA symbolic execution + SMT vs Kleene reference", "DESIGN.md §4 C05")
 
+check("C07",
+      "Frozen-heap monitor over symbolic execution: after Compile every slot reachable from *Expr (node array, nodes, values, parent table, closure "
+      "cells) is marked; any Store/MapUpdate/copy/append-in-place/sort-swap into a marked slot, or store to a package variable, on ANY symbolic path of "
+      "TryEval+Eval+Dump+DumpTable (arbitrary bindings, availability, failures; events off/ReportEvent/Debug) is a violation. The schedule quantifier "
+      "is discharged by non-interference (calls share only memory nobody writes), the history clause is also asserted directly (Eval(b1);Eval(b2) vs fresh). " + SHAPES,
+      "Interleavings are NOT explored (weak target for SMT); the claim is the per-call write footprint + the Go memory model. User-supplied fetchers/operators sharing state are outside the property. " + TRUST,
+      "SSA symbolic execution with write-footprint monitor + SMT path feasibility", "DESIGN.md §4 C07")
+check("C08",
+      "The caller's Config (symbolic constant values/costs, StatelessOperators with spare capacity) is frozen and Compile is executed symbolically on "
+      "sources with every directive form, invalid directives and malformed texts: zero writes into the config or package variables on every path. "
+      "Determinism: the same source is recompiled after other compilations with Go's unspecified map iteration order turned into an explicit "
+      "nondeterministic choice (every order explored) and must give the same Dump/DumpTable/Eval. CopyConfig/ExtendConf: no shared container, and "
+      "mutating every field of the copy writes nothing into the frozen source.",
+      "Bound: 4 shapes (+ all shapes <=1 internal node thorough), 2-4 entries per map. Interleavings not explored: Compile only reads the shared config (monitor), concurrent map reads are race-free. " + TRUST,
+      "SSA symbolic execution with write-footprint monitor and map-order nondeterminism", "DESIGN.md §4 C08")
+check("C09",
+      "Structural sizes are enumerated at and around each limit (127 operands flat and via flattening, 32767 nodes, 16383 nodes with events, stack "
+      "classes 8/16) while the data is symbolic; a narrowing monitor checks every Convert to a narrower integer and every int8/int16 +,-,* executed in "
+      "the package, all index/slice/makeslice bounds are panic obligations, and accepted programs must evaluate (Eval and TryEval) to the reference fold.",
+      "Bound: sizes adjacent to the limits only (listed in evidence). " + TRUST,
+      "SSA symbolic execution with narrowing/bounds monitors at boundary sizes", "DESIGN.md §4 C09")
+check("C10",
+      "Symbolic constants make every constant fold a fork on whether the operator call succeeds; invocation counters of the registered operators are "
+      "asserted 0 after Compile unless declared stateless (also with all-constant arguments), each Eval must invoke them exactly as often as the "
+      "reference evaluation of the Dump tree, Compile never fails on failing constant sub-expressions, and every variable not removed by a deciding "
+      "constant operand of an enclosing and/or (reference folding predicate) must still occur in the Dump tree. " + SHAPES,
+      "Bound: shapes <=2 internal nodes with EVERY variable/constant leaf assignment, all 16 subsets, 2 evaluations per compilation. " + TRUST,
+      "SSA symbolic execution + SMT with invocation counters and a reference folding predicate", "DESIGN.md §4 C10")
+check("C11",
+      "GetOrRegisterKey is executed on key maps whose existing keys are arbitrary pairwise-distinct int16 solver variables (the solver finds the key "
+      "values that collide with the first-free scan), asserting uniqueness, stability and idempotence; (tuple v0 v1 v2) is evaluated through the real "
+      "NewCtxFromVars / Eval convenience function under explicit keys on both sides of the slice/map fetcher boundary, symbolic keys, all registration "
+      "orders, RegVarAndOp under every map iteration order and undefined-variable mode, with bindings of all 17 supported Go kinds carrying symbolic data.",
+      "Bound: <=3 (4 thorough) pre-registered names + <=3 registrations; 3 variables; symbolic keys only on the map-fetcher side (slice fetcher via 8 concrete boundary triples). " + TRUST,
+      "SSA symbolic execution + SMT over symbolic keys and typed bindings", "DESIGN.md §4 C11")
+check("C12",
+      "Each shape is compiled with and without ReportEvent/Debug; results and Dump must be identical; the events are read only AFTER the evaluation "
+      "returned (retaining consumer) and compared term-by-term with the calls the registered operators saw themselves and with the operator "
+      "applications of the reference evaluation of the Dump tree (arguments at call time, result/error); and/or events must be self-consistent; "
+      "LOOP positions strictly increase and stacks are private. " + SHAPES,
+      "Bound: shapes <=2 internal nodes; quick 5 covering subsets, thorough 16. The genuine defect found here (Params aliased the reused buffer) is fixed in /repo (see known_findings.json). " + TRUST,
+      "SSA symbolic execution + SMT, event stream vs reference application log", "DESIGN.md §4 C12")
+check("C13",
+      "For every shape (variable and literal leaves), all 16 subsets and event modes: Dump text is recompiled unoptimised by the real Compile inside "
+      "the same symbolic run; Dump(recompiled) must equal the text byte for byte and both programs must agree (value, error-ness) on an arbitrary "
+      "symbolic binding. " + SHAPES,
+      "Bound: structure + int/bool literals; the string-literal round trip (symbolic characters through lexer and strconv.Quote) is the separate literal sub-check listed in the evidence when built. " + TRUST,
+      "SSA symbolic execution + SMT, decompile/recompile round trip", "DESIGN.md §4 C13")
+check("C16",
+      "Two compilations (Reordering only) under cost maps that differ in one entry c<=c', all costs integer-valued solver variables; every comparison "
+      "outcome of the real sort.stable_func is a path; on the two Dump trees: P1 only and/or operand order changes, P2 structurally identical siblings "
+      "of equal cost keep source order, P3/P5 raising the cost of x never moves an x-operand ahead / never reorders the others, P4 with c'>=10^9 all "
+      "x-operands come last. Assertions are formula-free (no base cost assumed).",
+      "Bound: shapes <=2 internal nodes containing and/or + 10 wider shapes (<=4 and/or operands); integer-valued costs (exact as SMT Int); NaN/Inf/fractions only as concrete values for P1. " + TRUST,
+      "SSA symbolic execution (real stable sort on symbolic costs) + SMT linear integer arithmetic", "DESIGN.md §4 C16")
+check("C17",
+      "The real `in`/`overlap` table entries run on lists of arbitrary int64 / arbitrary one-byte strings (solver variables) with concrete lengths on "
+      "both sides of the 100-element switch; the result is asserted equal to the formula ∃i,j. A[i]=B[j] (resp. ∃j. v=L[j]) and overlap to be "
+      "symmetric; the hash path uses maps with symbolic keys; pre-built sets, empty list literal on either side and element-type mismatches are covered, "
+      "plus 25 concrete expressions through Compile+Eval.",
+      "Bound: the length pairs listed in the evidence (scan and hash path, boundary 99/100/101); symmetry asserted for |A|*|B|<=30. The genuine defect found here ((overlap () (1 2)) type error) is fixed in /repo. " + TRUST,
+      "SSA symbolic execution + SMT with symbolic-key maps (lazy path forking)", "DESIGN.md §4 C17")
+
 def main():
     checks = []
     for pid in ALL:
